@@ -189,6 +189,32 @@ def rule_H3(ctx) -> None:
 def rule_H4(ctx) -> None:
     mod = ctx.repo.mod(M_ENUM)
     new = mod.func("Enum.__new__")
+    # pickle protocols 0 and 1 use neither __getnewargs_ex__ nor Enum.__new__: copyreg._reconstructor makes the object with
+    # int.__new__ and restores what __getstate__ hands out - by default the instance dict, which holds name and value.  A
+    # __getstate__ of the enum's own has to hand out both as well.
+    if mod.has("Enum.__getstate__"):
+        gs = mod.func("Enum.__getstate__")
+        ctx.analysed("Enum.__getstate__")
+        rets = [n.value for n in ast.walk(gs) if isinstance(n, ast.Return)]
+        def carries(r) -> bool:
+            if r is None:
+                return False
+            t = ast.unparse(r)
+            if t in ("self.__dict__", "vars(self)", "dict(self.__dict__)", "self.__dict__.copy()", "dict(vars(self))"):
+                return True
+            if isinstance(r, ast.Dict):
+                return {"name", "value"} <= {k.value for k in r.keys if isinstance(k, ast.Constant)}
+            if isinstance(r, ast.Tuple) and len(r.elts) == 2:
+                return carries(r.elts[0]) or carries(r.elts[1])
+            return False
+        if rets and all(carries(r) for r in rets):
+            ctx.proved("H4", "pickle-state-carries-name-and-value", mod.loc(gs))
+        elif not rets or any(r is None or (isinstance(r, ast.Constant) and r.value is None) or (isinstance(r, ast.Dict) and not r.keys) for r in rets):
+            ctx.refuted("H4", "pickle-state-carries-name-and-value", "state-dropped", mod.loc(gs),
+                        "Enum.__getstate__ hands out no state: pickle protocols 0 and 1 rebuild a member with int.__new__ (copyreg._reconstructor) and restore only that state, so the "
+                        "unpickled member has neither name nor value", "pickle.loads(pickle.dumps(E.X, 0)).name")
+        else:
+            ctx.inconclusive("H4", "pickle-state-carries-name-and-value", f"state {ast.unparse(rets[0])} not understood", mod.loc(gs))
     for red in ("Enum.__reduce_ex__", "Enum.__reduce__"):
         if mod.has(red):
             fn = mod.func(red)
